@@ -117,6 +117,20 @@ Theorem C03_rename_slots_refines : forall k free fat32 ss n se es ls e p q ss',
     e_cluster ne = (if fat32 then se_first_cluster_hi se * 65536 else 0) + se_first_cluster_lo se /\
     e_first_slot ne = p /\ e_sfn_slot ne + 1 = q.
 Proof. exact rename_slots_refines. Qed.
+(* the new short name may be the SOURCE'S OWN: a rename that only changes the spelling of the name (other case, or the
+   entry's alias) keeps the raw short name (src/dir.rs after 46d26a5, D22).  "b" (slots 3-4 of ex_dir2, alias B) rewritten
+   as "B" with the same alias: this is what the library's rename_in_dir does for "b" -> "B" *)
+Example C03_rename_slots_refines_ex :
+  let e := nth 1 (fst (fst (dir_scan ex_dir2 0 [] false))) (mk_entry [] [] 0 false) in
+  In e (fst (fst (dir_scan ex_dir2 0 [] false))) /\
+  e_first_slot e = 3 /\ e_sfn_slot e = 4 /\ e_sfn e = ex_alias2 /\ e_lfn e = [98] /\
+  let r := write_entry FixedRoot 0 (mark_deleted ex_dir2 (e_first_slot e) (e_sfn_slot e + 1)) [66] (ex_sfn ex_alias2) in
+  fst r = Ok (3, 5) /\
+  map e_lfn (fst (fst (dir_scan (snd r) 0 [] false))) = [ex_name1; [66]] /\
+  map e_sfn (fst (fst (dir_scan (snd r) 0 [] false))) = [ex_alias1; ex_alias2] /\
+  snd (dir_scan (snd r) 0 [] false) = [] /\
+  rename_in_dir upper_ascii oem_decode_lossy FixedRoot 0 ex_dir2 [98] [66] = (Ok tt, snd r).
+Proof. cbn zeta. split; [right; left; reflexivity|]. vm_compute. repeat split. Qed.
 
 (* ---- the slot clauses alone ([slots_wf fat32 ss] = the decoder reports no issue for ss): preserved by every successful
    write_entry (whatever the name, wherever the run goes, also when the directory grows) and by deleting any decoded entry;
